@@ -288,6 +288,11 @@ def _lower_once(text, ctr, log, ctx):
         a, b, repl, orig = m(ctr)
         log.append(("R3", orig))
         return text[:a] + repl + text[b:]
+    mj = _find_join(text)
+    if mj:
+        a, b, repl, orig = mj
+        log.append(("R11", orig))
+        return text[:a] + repl + text[b:]
     # R11 first: closures handed to rayon become plain blocks / loops before the loops inside them are looked at
     for ch in find_chains(text, {"for_each", "install"}):
         ms = ch.methods()
@@ -682,6 +687,46 @@ def _find_for_container(text, ctx):
         repl = ("{\n let mut vt_%d = %s;\n /*@L:R15*/ while vt_%d.len() > 0\n {\n let %s = vt_%d.vx_pop_front();\n %s\n }\n}") % (n, expr, n, pat, n, bd)
         return a, b, repl, orig, "R15"
     return None
+
+
+def _find_join(text):
+    """`let A = move || EA; let B = move || EB; ... POOL.join(A, B)` / `join(A, B)`: rayon's join calls both closures
+    exactly once and returns after both returned (trusted); under that contract the call is `{ EA; EB; }`.  The closure
+    bindings are removed and their bodies inlined at the call."""
+    m = re.search(r"\b(?:[A-Za-z_][A-Za-z0-9_]*\s*\.\s*)?join\(\s*([a-z_][a-z0-9_]*)\s*,\s*([a-z_][a-z0-9_]*)\s*\)", text)
+    if not m:
+        return None
+    a_name, b_name = m.group(1), m.group(2)
+    bodies = {}
+    for nm in (a_name, b_name):
+        lets = list(re.finditer(r"let\s+%s\s*=\s*move\s*\|\|\s*" % re.escape(nm), text[:m.start()]))
+        if not lets:
+            return None
+        bodies[nm] = lets[-1]
+    # both closure lets must be simple expression closures ending at `;`
+    def closure_end(mm):
+        depth, i = 0, mm.end()
+        while i < len(text):
+            c = text[i]
+            if c in "([{":
+                depth += 1
+            elif c in ")]}":
+                depth -= 1
+            elif c == ";" and depth == 0:
+                return i
+            i += 1
+        raise Unsupported("join closure shape")
+    ea = closure_end(bodies[a_name]); eb = closure_end(bodies[b_name])
+    body_a = text[bodies[a_name].end():ea].strip(); body_b = text[bodies[b_name].end():eb].strip()
+    # only the first call site is rewritten per round; the bindings are dropped when no call site is left
+    new = text[:m.start()] + "{ %s; %s; }" % (body_a, body_b) + text[m.end():]
+    rest_calls = re.search(r"\bjoin\(\s*%s\s*,\s*%s\s*\)" % (re.escape(a_name), re.escape(b_name)), new)
+    if not rest_calls:
+        # remove the two closure lets (the later one first)
+        spans = sorted([(bodies[a_name].start(), ea + 1), (bodies[b_name].start(), eb + 1)], reverse=True)
+        for (x, y) in spans:
+            new = new[:x] + new[y:]
+    return 0, len(text), new, m.group(0)
 
 
 def _r11_foreach(ch, ctr):
